@@ -139,11 +139,17 @@ fn join_shape(na: usize, nb: usize, nc: usize) {
     std::mem::forget(d);
 }
 
+/// `String::with_capacity(512)` in join makes CBMC carry a 512-byte symbolic buffer; the capacity is only a hint
+pub(crate) fn with_capacity_stub(_capacity: usize) -> String {
+    String::new()
+}
+
 macro_rules! join_harness {
     ($name:ident, $a:expr, $b:expr, $c:expr) => {
         #[cfg_attr(kani, kani::proof)]
         #[cfg_attr(kani, kani::unwind(7))]
         #[cfg_attr(kani, kani::stub(alloc::fmt::format, fmt_stub))]
+        #[cfg_attr(kani, kani::stub(alloc::string::String::with_capacity, with_capacity_stub))]
         #[cfg_attr(verif_replay, test)]
         fn $name() {
             lib_only!();
